@@ -85,17 +85,17 @@ CLAIMED["C10"]=dict(
    ref="6 C10")
 CLAIMED["C18"]=dict(
    technique="round-trip property-based testing of the type printer: generated type sources (and the types inferred for generated programs) are checked by gluon to obtain the ArcType the system builds, rendered by TypeFormatter at 6 widths, parsed back with gluon's parser in two syntactic contexts, and compared as canonical trees",
-   text="Exploration: 8k (quick) / 250k (thorough) types x widths {20,40,60,80,120,200} x contexts {type alias right-hand side, binding annotation}: functions and foralls in argument position, implicit arguments, applications, tuples, records with operator fields and row tails, effect rows, declared variants/records, module records with type fields (definitions compared too). One recorded known finding: a record type field whose definition is a variant is printed in a form the grammar rejects.",
+   text="Exploration: 8k (quick) / 250k (thorough) types x widths {20,40,60,80,120,200} x contexts {type alias right-hand side, binding annotation}: functions and foralls in argument position, implicit arguments, applications, tuples, records with operator fields and row tails, effect rows, declared variants (ordinary, GADT-style, under a quantifier) and records, tuple-like field names (_0, _01), open rows with 0-2 tuple fields, module records with type fields whose definitions are each rendered and read back on their own. Found and fixed: non-tuples printed as tuples (open rows, single _0 field, zero-padded names). Two recorded known findings: a record type field whose definition is a variant, and a variant under a quantifier, are printed in forms the grammar rejects.",
    note="comparison is at parser level (names by last path component); generated sources the checker rejects are counted and skipped",
    ref="6 C18")
 CLAIMED["C20"]=dict(
    technique="property-based testing / fuzzing of the editor queries: generated programs in complete, truncated and token-deleted form; every byte offset queried with all position queries on the (salvaged) typechecked tree; agreement oracle = the type the checker stored at each identifier occurrence and a lexical-scope model recomputed by the harness",
-   text="Exploration: 6k (quick) / 30k (thorough) programs x (1 + 6 (16) variants) x every byte offset x 8 queries (~10^8 queries in quick): no panic; on complete programs find at the first/middle/last byte of every identifier equals the checker's type for it, and no program binder is suggested where it is not lexically visible. Found and fixed: panics inside [] and on annotated expressions.",
+   text="Exploration: 6k (quick) / 30k (thorough) programs x (1 + 6 (16) variants) x every byte offset x 8 queries (~10^8 queries in quick): no panic; on complete programs find at the first/middle/last byte of every identifier occurrence and of every binding occurrence (pattern variables, parameters) equals the checker's type for it, and no program binder is suggested where it is not lexically visible (checked at the end of every identifier and at the first byte of every let / rec / match / if keyword). Found and fixed: panics inside [], on annotated expressions and on unit patterns; names suggested on the keyword that precedes their binding.",
    note="the checker's type for an occurrence is read from the typed tree the checker produced; globals of the environment among the suggestions are not judged",
    ref="6 C20")
 CLAIMED["C14"]=dict(
    technique="randomised concurrency stress with a differential oracle (property-based generation of rounds): T OS threads on sibling Gluon threads of one VM run generated programs with overlapping imports of not-yet-loaded modules and allocation-heavy programs under forced collections while a collector thread collects the root; results compared with the same programs run alone; tick counters for once-ness; CPU-idle stall detection for deadlock",
-   text="Exploration: 3k (quick) / 60k (thorough) rounds x 2/4/8 (16) OS threads x 3-7 (11) programs, GC stress period in {0,1,2,5,13} with quarantined sweeps, a spinning root collector in 2/3 of the rounds. No absence claim: interleavings are sampled by the OS scheduler, not enumerated.",
+   text="Exploration: 3k (quick) / 60k (thorough) rounds x 2/4/8 (16) OS threads x 3-7 (11) programs, GC stress period in {0,1,2,5,13} with quarantined sweeps, a spinning root collector in 2/3 of the rounds; half of the rounds start every thread with one and the same program over field names and strings the VM has never seen (concurrent first-time interning), a third run all expressions of all threads under one expression name. Found and fixed: a source map shared by name between threads. No absence claim: interleavings are sampled by the OS scheduler, not enumerated.",
    note="default executor only (tokio VM not exercised); schedule perturbation hook H5 of the design was not needed so far and is not built; a stall is reported only when the worker consumed no CPU for 3 s",
    ref="6 C14")
 CLAIMED["C03"]=dict(
